@@ -54,6 +54,15 @@ def gen_cases(rng, tier):
     route = ["api_class", "api_legacy", "potable", "cli"][(i + i // 8) % 4]
     model = {"type": "pair", "target": "LAMMPS", "tab": {"nr": nr, "cutoff": cutoff}, "forms": [], "tables": [], "pair": [["Ar", "Ar", node]]}
     cases.append({"route": route, "model": model, "style": rng.randrange(1 << 30), "root_on_grid": k, "root_variant": rv})
+  # a discontinuity exactly ON a row of a grid that is exact in doubles (first row, interior, last row = cutoff), and a
+  # table form whose data points are the rows themselves: the row is on a definite side, judged strictly
+  for i in range(14 if tier == "quick" else 140):
+    v = spec.EXACT_BOUNDARY_VARIANTS[i % len(spec.EXACT_BOUNDARY_VARIANTS)]
+    model, k = spec.exact_boundary_model(rng, "LAMMPS", v)
+    route = ["potable", "cli", "potable", "api_class"][(i + i // 7) % 4]
+    if v.endswith("table") and route == "api_class":
+      route = "potable"
+    cases.append({"route": route, "model": model, "style": rng.randrange(1 << 30), "exact_boundary": v, "root_on_grid": k})
   return cases
 
 
@@ -77,6 +86,8 @@ def run_case(case, ctx):
   N = nr - 1
   dr = oracle.grid(cutoff, N)
   rows = oracle.sample_rows(N, rng, 24 if nr <= 400 else 40)
+  if case.get("exact_boundary"):
+    ctx.cls("exact_boundary_on_row:" + case["exact_boundary"])
   if case.get("root_on_grid"):
     rows = sorted(set(rows + [case["root_on_grid"] - 1]))
     ctx.cls("root_on_grid")
@@ -175,7 +186,7 @@ def run_case(case, ctx):
       r = R.F(dr * (i + 1))
       row = sec["rows"][i]
       where = "block %d (%s-%s) row %d r=%s route=%s" % (idx, a, b, i + 1, row[1], route)
-      oracle.check_value(ctx, "energy", row[2], o, r, where=where, fmt="lammps")
+      oracle.check_value(ctx, "energy", row[2], o, r, where=where, fmt="lammps", strict=bool(case.get("exact_boundary")))
       if oracle.on_break(r, o.breaks) or ((not o.analytic) and oracle.near_break(r, o.breaks)):
         ctx.count("force_rows_skipped_at_breakpoint")
         continue
